@@ -310,6 +310,24 @@ pub fn run(tier: &str) -> i32 {
                 }
             }
         }
+        // character ranges r[a,z]: within / outside / the four bracket forms on a bound
+        for (val, inside_az, on_upper_x) in [(s("m"), true, false), (s("x"), true, true), (s("Z"), false, false), (s("a"), true, false), (s("{"), false, false)] {
+            let dj = m(vec![("a", val.clone())]).json();
+            let rules = "rule az {\n  let c = parse_char(a)\n  %c in r[a,z]\n}\nrule ax_open {\n  let c = parse_char(a)\n  %c in r(a,x)\n}\nrule ax_closed {\n  let c = parse_char(a)\n  %c in r[a,x]\n}\n".to_string();
+            let o = crate::impl_::lib_run(&rules, &dj);
+            acc.traces += 1;
+            pc += 1;
+            let ch = match &val { V::Str(x) => x.chars().next().unwrap(), _ => ' ' };
+            let st = |b: bool| if b { "PASS" } else { "FAIL" };
+            let open_ax = ch > 'a' && ch < 'x';
+            let closed_ax = ('a'..='x').contains(&ch);
+            let fail = !(inside_az && open_ax && closed_ax);
+            let want = format!("file={} az={} ax_open={} ax_closed={}", st(!fail), st(inside_az), st(open_ax), st(closed_ax));
+            let _ = on_upper_x;
+            if o.short() != want {
+                acc.violate("parse_char-range", format!("character {:?} against r[a,z], r(a,x), r[a,x]: {} (expected {})", ch, o.short(), want), json!({"kind":"lib","rules":rules,"data":dj,"expected":want,"observed":o.short()}));
+            }
+        }
         rep.states += pc;
         rep.transitions += pc;
     }
